@@ -103,9 +103,9 @@ def rules(prog, an, rep, cfg="shipped", record=True):
                 ok("C18.R4", construct, fsite, "no memory read or written, %d inline asm without memory operands" % len(s.asms))
         # R5 allocation results only stored into caller objects / fresh blocks
         for (sid, loc, vt, site, vol) in s.stores:
-            if vt[0] == "p" and vt[1][0][0] == "heap":
+            if vt[0] == "p" and vt[1][0][0] in ("heap", "heapi"):
                 c5 = "%s:store@%s" % (construct, addr_str(loc.addr, prog))
-                if loc.addr is None or loc.addr.root[0] not in ("arg", "heap", "alloca"):
+                if loc.addr is None or loc.addr.root[0] not in ("arg", "heap", "heapi", "alloca"):
                     viol("C18.R5", c5, site.split(" ")[0], "allocation result stored outside caller-owned objects: %s" % addr_str(loc.addr, prog))
                 else:
                     ok("C18.R5", c5, site.split(" ")[0], "allocation result stored into %s" % addr_str(loc.addr, prog))
